@@ -48,6 +48,7 @@ def run(ctx, rep):
             rep.finding(R2, f.key.replace('C05.', 'C02.R2/C05.', 1), f.where, f.construct, f.msg)
     rep.floor('C02.R2', 'literal-set obligations', n, 1000)
     r3(ctx, rep)
+    fairness_rule(ctx, rep)
 
 
 def r3(ctx, rep):
@@ -140,3 +141,21 @@ def r3(ctx, rep):
             if not ok:
                 rep.finding(R3, f'C02.R3/is_countermodel_to/{"".join(pv)}/{cv}', m.loc(MODELS, ic), 'BaseModel.is_countermodel_to',
                             f'premises {pv}, conclusion {cv}: returns {got}, a countermodel designates all premises and not the conclusion ({want})')
+
+
+def fairness_rule(ctx, rep):
+    from .. import fairness
+    m = ctx.m
+    R = rep.rule('C02.R4', 'fair re-application: the least-applied test does not change the counts it aggregates (no inserting read of a defaultdict counter)')
+    hits, ncls = fairness.inserting_reads(m)
+    rep.floor('C02.R4', 'aggregated defaultdict counters', ncls, 1)
+    for ref, cd, vt, aggs in fairness.counter_classes(m):
+        rep.consult(f'{m.loc(ref.module, cd)} {ref.qualname}')
+    if not hits:
+        rep.instance(R, ok=True, nontrivial='no-inserting-read')
+    for ref, fn, node in hits:
+        rep.instance(R, ok=False, nontrivial=(ref.qualname, fn.name))
+        rep.finding(R, f'C02.R4/{ref.qualname}.{fn.name}', m.loc(ref.module, node), f'{ref.qualname}.{fn.name}',
+                    f'`{ast.unparse(node)}` subscripts the per-branch defaultdict: merely asking inserts a zero count, which {ref.qualname}\'s '
+                    f'aggregate over .values() then sees -- nodes that can never be applied pin the minimum, applied nodes are never least again '
+                    f'(unsaturated "invalid" verdicts that depend on premise order / options)')
